@@ -323,9 +323,9 @@ pub fn make_job(ctx: &Ctx, prop: &str, id: u64) -> Job {
                         base = with_unknown_last_chunk(base, &mut r);
                     } else if id % 389 == 33 {
                         base = many_chunks_last_frame(seed);
-                    } else if id % 389 == 77 {
-                        // last chunk above 1 MiB (sparse cut set: dense around its end)
-                        base = huge_chunk_base(&mut r);
+                    } else if id % 389 == 77 || id % 389 == 78 {
+                        // last chunk above 1 MiB, compressed and raw (sparse cut set: dense around its end)
+                        base = huge_chunk_base_with(&mut r, id % 389 == 77, false);
                     }
                 }
                 cuts_job(base, seed)
@@ -615,6 +615,9 @@ fn special_items(ctx: &Ctx, prop: &str) -> Vec<(String, usize)> {
             for _ in 0..if q { 40 } else { 200 } {
                 v.push(("chunk-size-boundary".into(), 1));
             }
+            for n in if q { vec![8usize, 40] } else { vec![8, 40, 80, 200] } {
+                v.push(("indexed-bomb-missing-index".into(), n));
+            }
             for n in if q { vec![4usize, 8] } else { vec![4, 8, 16, 32] } {
                 v.push(("tileset-bomb".into(), n));
                 v.push(("tileset-bomb".into(), n));
@@ -681,7 +684,7 @@ fn special_items(ctx: &Ctx, prop: &str) -> Vec<(String, usize)> {
                 }
             }
             for b in spec::BUGS {
-                if !matches!(*b, "deep-nesting" | "deep-nesting-closed" | "many-layers" | "many-tags" | "many-frames-high-layer" | "deflate-bomb" | "tilemap-huge-extent" | "link-chain" | "bomb-with-links" | "tilemap-bomb-with-links" | "tileset-bomb" | "many-palette-packets" | "chunk-size-boundary" | "zlib-split-a" | "zlib-split-b" | "palette-shift-a" | "palette-shift-b") {
+                if !matches!(*b, "deep-nesting" | "deep-nesting-closed" | "many-layers" | "many-tags" | "many-frames-high-layer" | "deflate-bomb" | "tilemap-huge-extent" | "link-chain" | "bomb-with-links" | "tilemap-bomb-with-links" | "tileset-bomb" | "indexed-bomb-missing-index" | "many-palette-packets" | "chunk-size-boundary" | "zlib-split-a" | "zlib-split-b" | "palette-shift-a" | "palette-shift-b") {
                     for _ in 0..if q { 2 } else { 12 } {
                         v.push((b.to_string(), 1));
                     }
@@ -1073,6 +1076,12 @@ pub fn c16_cell_base(ctx: &Ctx, k: u64) -> Option<Base> {
 
 /// A small sprite whose last chunk is one raw image cel of more than 1 MiB.
 pub fn huge_chunk_base(r: &mut Rng) -> Base {
+    let compressed = r.chance(1, 2);
+    huge_chunk_base_with(r, compressed, true)
+}
+
+/// `canonical` = no neutral encoding coins, so that the big cel really is the last chunk.
+pub fn huge_chunk_base_with(r: &mut Rng, compressed_cel: bool, neutral: bool) -> Base {
     let gseed = r.next();
     let mut sr = Rng::sub(gseed, "spec");
     let mut s = spec::gen_spec(&mut sr);
@@ -1110,13 +1119,13 @@ pub fn huge_chunk_base(r: &mut Rng) -> Base {
             w,
             h,
             pixels: px,
-            compressed: r.chance(1, 2),
+            compressed: compressed_cel,
             level: 1,
         },
         ud: None,
         extra: false,
     });
-    let bytes = spec::encode(&s, &EncOpts { seed: gseed, neutral: true });
+    let bytes = spec::encode(&s, &EncOpts { seed: gseed, neutral });
     let map = format::walk(&bytes);
     Base {
         desc: format!("gen:{:016x}+huge-raw-cel {}x{}", gseed, w, h),
